@@ -753,6 +753,30 @@ func TestVF_C06_NodeSim(t *testing.T) {
 	})
 }
 
+// C01 through the real node objects: what a client is told must be true. A read
+// completes only when the local replica has applied every write completed before the
+// read was issued; a write reported Completed was applied, with the result of ITS entry;
+// applied entries agree across replicas. Mixed read/write profile with restarts of the
+// replica the client talks to (the same NoOP session is reused across the restart).
+func TestVF_C01_NodeSim(t *testing.T) {
+	nsRun(t, &nsProfile{
+		unit: "TestVF_C01_NodeSim",
+		rule: "E9 nodesim, client profile (reads and writes through every replica, in-process restarts with the same session, leader changes, link faults); non-trivial = a write and a read completed AND the case had a restart, a leader change or a link fault",
+		armed: []string{"nodesim-stale-read", "nodesim-completed-not-applied", "nodesim-foreign-result", "nodesim-applied-entry-differs", "nodesim-panic"},
+		weights: []nsWeight{{"round", 18}, {"rounds-long", 4}, {"tick-one", 3}, {"step-one", 5}, {"apply-one", 3}, {"work-no-tick", 3},
+			{"propose", 16}, {"propose-burst", 6}, {"read", 12}, {"cc", 2}, {"transfer", 5},
+			{"isolate", 4}, {"cut-link", 4}, {"hold-link", 4}, {"heal", 4}, {"stall", 5}, {"crash", 4}, {"restart", 6},
+			{"macro-restart-repropose", 6}},
+		quiescePct: 3,
+		voters:     nsVoters(map[int]int{1: 1, 2: 1, 3: 10, 5: 4}),
+		maxActions: 40,
+		nontrivial: func(s *nsSim) bool {
+			return s.flags["res-read-RequestCompleted"] && s.flags["res-prop-RequestCompleted"] &&
+				(s.flags["ev-leader-change"] || s.flags["act-restart"] || s.flags["act-isolate"] || s.flags["act-cut-link"] || s.flags["act-hold-link"])
+		},
+	})
+}
+
 func TestVF_C12_NodeSim(t *testing.T) {
 	nsRun(t, &nsProfile{
 		unit:  "TestVF_C12_NodeSim",
